@@ -60,6 +60,7 @@ type Frame struct {
 	Site   ssa.CallInstruction
 	Callee *ssa.Function
 	Up     *Frame
+	Spec   Spec // the callee's specialisation at this site
 }
 
 // Ctx is handed to Step/Edge callbacks.
@@ -204,12 +205,94 @@ func (m *Machine[S]) tryInline(up *Frame, s S, in ssa.Instruction, depth int) ([
 	if m.Inline == nil || depth > 3 {
 		return nil, false
 	}
+	if rd, isRD := in.(*ssa.RunDefers); isRD {
+		return m.runDefers(up, s, rd, depth)
+	}
 	c, ok := in.(*ssa.Call)
 	if !ok {
 		return nil, false
 	}
+	return m.inlineCall(up, s, c, depth)
+}
+
+// forwarder: a synthetic wrapper that only forwards to a method (bound method value, thunk).
+func forwarder(f *ssa.Function) bool {
+	return f != nil && (strings.Contains(f.Synthetic, "bound method wrapper") || strings.Contains(f.Synthetic, "thunk") || strings.Contains(f.Synthetic, "wrapper for"))
+}
+
+// runDefers executes, at the function's RunDefers point, the deferred calls whose callee is analysed in place
+// (a clean-up helper registered with defer), last registered first. A defer whose registration dominates this point
+// has run; one that merely may have been registered yields both outcomes. Deferred calls of other callees are left to
+// Step (it sees the RunDefers instruction afterwards).
+func (m *Machine[S]) runDefers(up *Frame, s S, rd *ssa.RunDefers, depth int) ([]S, bool) {
+	f := rd.Parent()
+	var ds []*ssa.Defer
+	for _, b := range f.Blocks {
+		for _, x := range b.Instrs {
+			if d, ok := x.(*ssa.Defer); ok {
+				if cal := Callee(d); cal != nil && cal.Blocks != nil && (m.Inline(cal, d) || forwarder(cal)) {
+					ds = append(ds, d)
+				}
+			}
+		}
+	}
+	if len(ds) == 0 {
+		return nil, false
+	}
+	states := []S{s}
+	for i := len(ds) - 1; i >= 0; i-- {
+		d := ds[i]
+		dom := d.Block().Dominates(rd.Block()) || d.Block() == rd.Block()
+		if !dom && !reachesBlock(d.Block(), rd.Block()) {
+			continue // cannot have been registered on a path to this return
+		}
+		var next []S
+		for _, st := range states {
+			out, done := m.inlineCall(up, st, d, depth)
+			if !done {
+				next = append(next, st)
+				continue
+			}
+			next = append(next, out...)
+			if !dom {
+				next = append(next, st) // the defer may not have been registered on this path
+			}
+		}
+		states = dedup(next)
+	}
+	// let Step see the RunDefers too (deferred lock releases and the like are its business)
+	var final []S
+	ctx := &Ctx[S]{M: m, Node: Node[S]{rd.Block(), s}, Frame: up}
+	for _, st := range states {
+		final = append(final, m.Step(ctx, st, rd)...)
+	}
+	return dedup(final), true
+}
+
+func reachesBlock(from, to *ssa.BasicBlock) bool {
+	seen := map[*ssa.BasicBlock]bool{}
+	var walk func(b *ssa.BasicBlock) bool
+	walk = func(b *ssa.BasicBlock) bool {
+		if b == to {
+			return true
+		}
+		if seen[b] {
+			return false
+		}
+		seen[b] = true
+		for _, n := range b.Succs {
+			if walk(n) {
+				return true
+			}
+		}
+		return false
+	}
+	return walk(from)
+}
+
+func (m *Machine[S]) inlineCall(up *Frame, s S, c ssa.CallInstruction, depth int) ([]S, bool) {
 	cal := Callee(c)
-	if cal == nil || cal.Blocks == nil || !m.Inline(cal, c) {
+	if cal == nil || cal.Blocks == nil || !(m.Inline(cal, c) || forwarder(cal)) {
 		return nil, false
 	}
 	for f := up; f != nil; f = f.Up {
@@ -226,13 +309,13 @@ func (m *Machine[S]) tryInline(up *Frame, s S, in ssa.Instruction, depth int) ([
 	}
 	m.memo[key] = nil
 	fr := &Frame{Site: c, Callee: cal, Up: up}
-	// specialise the callee on constant arguments
-	sp := Spec{}
-	for i, a := range c.Call.Args {
-		if k, isC := a.(*ssa.Const); isC && k.Value != nil && i < len(cal.Params) {
-			sp[cal.Params[i]] = k.Value
-		}
+	// specialise the callee on constant arguments and on arguments the enclosing specialisation fixes
+	cur := m.Spec
+	if up != nil && up.Spec != nil {
+		cur = up.Spec
 	}
+	sp := cur.SpecFor(c, cal)
+	fr.Spec = sp
 	var exits []S
 	seen := map[Node[S]]bool{}
 	start := Node[S]{cal.Blocks[0], s}
